@@ -627,6 +627,22 @@ int main(int argc, char **argv)
                                 rc = finalise_alignment(slot[sl]);
                         }
                         fprintf(out, "\"rc\":%d", rc);
+                } else if (!strcmp(tok[0], "checkmsa") && nt >= 3) {
+                        /* kalign_check_msa(msa, exit_on_error): duplicate names / duplicate sequences */
+                        int sl = atoi(tok[1]);
+                        int rc = -2;
+                        if (slot[sl]) {
+                                rc = kalign_check_msa(slot[sl], atoi(tok[2]));
+                        }
+                        fprintf(out, "\"rc\":%d", rc);
+                } else if (!strcmp(tok[0], "reformat") && nt >= 4) {
+                        /* reformat_settings_msa(msa, rename, unalign) */
+                        int sl = atoi(tok[1]);
+                        int rc = -2;
+                        if (slot[sl]) {
+                                rc = reformat_settings_msa(slot[sl], atoi(tok[2]), atoi(tok[3]));
+                        }
+                        fprintf(out, "\"rc\":%d", rc);
                 } else if (!strcmp(tok[0], "compare") && nt >= 3) {
                         float score = -1.0f;
                         int rc = kalign_msa_compare(slot[atoi(tok[1])], slot[atoi(tok[2])], &score);
